@@ -157,6 +157,20 @@ def _host_modules():
 HOST_MODULES = _host_modules()
 
 
+def _receiver(fn_node, obj):
+    """What a method receives in front of its arguments: nothing for a staticmethod."""
+    for d in getattr(fn_node, "decorator_list", []):
+        if isinstance(d, ast.Name) and d.id == "staticmethod":
+            return []
+    return [obj]
+
+
+def _package_constant(name):
+    from . import orderdom
+
+    return orderdom._package_constant(name)
+
+
 def _is_generator(fn):
     stack = list(fn.body)
     while stack:
@@ -274,7 +288,12 @@ class HostInterp:
             return
         if isinstance(st, ast.For):
             broke = False
-            for v in list(self.ev(st.iter, env)):
+            it = self.ev(st.iter, env)
+            n_iter = 0
+            for v in (list(it) if isinstance(it, (list, tuple, set, dict, str, frozenset)) else it):
+                n_iter += 1
+                if n_iter > 20000:
+                    raise AnalysisError("interpretation: loop does not terminate")
                 self.bind(st.target, v, env)
                 try:
                     self.block(st.body, env)
@@ -375,6 +394,12 @@ class HostInterp:
                 return SAFE_BUILTINS[e.id]
             if e.id in ("True", "False", "None"):
                 return {"True": True, "False": False, "None": None}[e.id]
+            c = _package_constant(e.id)
+            if c is not None:
+                # a module-level constant of the package (a precompiled regexp, a tuple of names, a table)
+                v = self.ev(c, {})
+                self.globals_env[e.id] = v
+                return v
             raise AnalysisError(f"rewriter interpretation: unbound name {e.id}")
         if isinstance(e, ast.Attribute):
             obj = self.ev(e.value, env)
@@ -404,7 +429,7 @@ class HostInterp:
 
             if any(obj is m for m in HOST_MODULES) and not e.attr.startswith("_"):
                 return getattr(obj, e.attr)
-            if isinstance(obj, _re.Match):
+            if isinstance(obj, (_re.Match, _re.Pattern)):
                 return getattr(obj, e.attr)
             raise AnalysisError(f"rewriter interpretation: attribute {e.attr} of {type(obj).__name__}")
         if isinstance(e, ast.JoinedStr):
@@ -600,13 +625,13 @@ class HostInterp:
             return marker("generic_visit", node)
         if isinstance(fn, tuple) and fn and fn[0] == "method":
             m = self.methods[fn[1]]
-            return self.call_function(m, [self.self_obj] + args, kwargs, {})
+            return self.call_function(m, _receiver(m, self.self_obj) + args, kwargs, {})
         if isinstance(fn, HostFn):
             return fn(*args, **kwargs)
         if isinstance(fn, Closure):
             return self.call_function(fn.node, args, kwargs, fn.env)
         if isinstance(fn, tuple) and fn and fn[0] == "bound":
-            return self.call_function(fn[2], [fn[1]] + args, kwargs, {})
+            return self.call_function(fn[2], _receiver(fn[2], fn[1]) + args, kwargs, {})
         if isinstance(fn, tuple) and fn and fn[0] == "class":
             methods = self.classes[fn[1]]
             obj = Instance(fn[1], methods)
@@ -634,7 +659,7 @@ class HostInterp:
                 return fn(*args, **kwargs)
             except (TypeError, ValueError, KeyError, IndexError) as ex:
                 raise AnalysisError(f"interpretation: {d or fn} failed on abstract values: {type(ex).__name__}: {ex}")
-        if fn in SAFE_BUILTINS.values() or (callable(fn) and getattr(fn, "__self__", None) is not None and isinstance(fn.__self__, self.host_types + (_re.Match,))) or getattr(fn, "__module__", None) in ("re", "textwrap", "itertools", "functools", "math"):
+        if fn in SAFE_BUILTINS.values() or (callable(fn) and getattr(fn, "__self__", None) is not None and isinstance(fn.__self__, self.host_types + (_re.Match, _re.Pattern))) or getattr(fn, "__module__", None) in ("re", "textwrap", "itertools", "functools", "math"):
             try:
                 return fn(*args, **kwargs)
             except (TypeError, ValueError, KeyError, IndexError) as ex:
